@@ -75,6 +75,10 @@ def pcGo : Option Meta → Meta
 /-- a `"$…"` string as both walkers treat it: an operator name stays, anything else is pseudonymised in field-name mode -/
 theorem dollar_head (s : Str) : (decide (strLen s > 0)) = !s.isEmpty := strLen_pos s
 
+/-- the other spelling of the same test: `str != ""` -/
+theorem beq_s_empty (s : Str) : (s == s_empty) = s.isEmpty := by
+  cases s <;> rfl
+
 theorem Q_cons (c : Ctx) (S : Bool) (pc : Option Meta) (kp : List Str) (k : Str) (v : J) (rest : List (Str × J)) :
     c.Q S pc kp ((k, v) :: rest) = (c.qKey (c.qOp pc k) k, c.QVal S (c.qOp pc k) k (kp ++ [k]) v) :: c.Q S pc kp rest := by
   rw [Ctx.Q]
@@ -135,17 +139,17 @@ theorem A_step (g : Globals) (T : Tables) (rfn S : Bool) (fuel : Nat) (hph : T.e
       have h2 : ([pk] : List Str).length < fuel := by simp; omega
       cases s with
       | nil =>
-        simp [isNull, asStr, dollar_head, goAnd, goOr, reMatchesAnyKeyInPath_eq, redactScalarValue_eq g T fuel [pk] _ S _ h1 h2 hph,
+        simp [isNull, asStr, dollar_head, beq_s_empty, goAnd, goOr, reMatchesAnyKeyInPath_eq, redactScalarValue_eq g T fuel [pk] _ S _ h1 h2 hph,
           setIdx_mid, Ctx.AElem, Ctx.aElemScalar, dollarPrefixed, Ctx.scalar]
         cases sel <;> simp [goOr, absCfg]
       | cons ch r =>
         by_cases hc : ch = '$'
         · subst hc
           cases hl : lookup ('$' :: r) T.core <;> cases rfn <;>
-            simp [isNull, asStr, dollar_head, goAnd, strByte0Is, tblGet, hl, setIdx_mid, Ctx.AElem, Ctx.aElemScalar, dollarPrefixed,
+            simp [isNull, asStr, dollar_head, beq_s_empty, goAnd, strByte0Is, tblGet, hl, setIdx_mid, Ctx.AElem, Ctx.aElemScalar, dollarPrefixed,
               Ctx.dollarString, Ctx.H, absCfg, HashName_eq]
         · have hb2 : (ch == '$') = false := by simpa using hc
-          simp [isNull, asStr, dollar_head, goAnd, goOr, strByte0Is, hb2, reMatchesAnyKeyInPath_eq,
+          simp [isNull, asStr, dollar_head, beq_s_empty, goAnd, goOr, strByte0Is, hb2, reMatchesAnyKeyInPath_eq,
             redactScalarValue_eq g T fuel [pk] _ S _ h1 h2 hph, setIdx_mid, Ctx.AElem, Ctx.aElemScalar, dollarPrefixed_cons, Ctx.scalar]
           cases sel <;> simp [goOr, absCfg]
     | num l =>
@@ -267,19 +271,19 @@ theorem Q_step (g : Globals) (T : Tables) (rfn S : Bool) (fuel : Nat) (hph : T.e
         cases s with
         | nil =>
           cases hx : isTy? co .Exempt <;>
-            simp [isNull, asStr, dollar_head, goAnd, hex, hx, redactScalarValue_eq g T fuel (kp ++ [k]) _ S _ hnkp1 hnkp2 hph,
+            simp [isNull, asStr, dollar_head, beq_s_empty, goAnd, hex, hx, redactScalarValue_eq g T fuel (kp ++ [k]) _ S _ hnkp1 hnkp2 hph,
               Ctx.QVal, Ctx.qValScalar, dollarPrefixed, Ctx.scalar] <;>
             try (cases rfn <;> rfl)
         | cons ch r =>
           by_cases hc : ch = '$'
           · subst hc
             cases hl : lookup ('$' :: r) T.core <;>
-              simp [isNull, asStr, dollar_head, goAnd, strByte0Is, tblGet, hl, Ctx.QVal, Ctx.qValScalar, dollarPrefixed,
+              simp [isNull, asStr, dollar_head, beq_s_empty, goAnd, strByte0Is, tblGet, hl, Ctx.QVal, Ctx.qValScalar, dollarPrefixed,
                 Ctx.dollarString, Ctx.H, absCfg] <;>
               try (cases rfn <;> simp)
           · have hb2 : (ch == '$') = false := by simpa using hc
             cases hx : isTy? co .Exempt <;>
-              simp [isNull, asStr, dollar_head, goAnd, strByte0Is, hb2, hex, hx,
+              simp [isNull, asStr, dollar_head, beq_s_empty, goAnd, strByte0Is, hb2, hex, hx,
                 redactScalarValue_eq g T fuel (kp ++ [k]) _ S _ hnkp1 hnkp2 hph, Ctx.QVal, Ctx.qValScalar, dollarPrefixed_cons, Ctx.scalar] <;>
               try (cases rfn <;> rfl)
       | num l =>
